@@ -509,19 +509,20 @@ def replay_positions(h, lay, positions, expected, rng=None, reals=None):
     Returns None or {step, a (model offset), r (real offset), diff, signature}.  `reals` (out) collects the
     real offsets used."""
     h.start(lay)
-    for n, a in enumerate(positions):
-        r = lay.to_real(a, rng)
-        if reals is not None:
-            reals.append(r)
-        if r < h.rsent:
-            raise ValueError("offset map is not monotone")
-        h.read_to(r)
-        if expected is not None:
-            code = h.project()
-            d = compare(expected[n], code)
-            if d:
-                return {"step": n, "a": a, "r": r, "diff": d, "error": h.error, "err": code.get("err"),
-                        "signature": classify(lay, r, code, expected[n]["defunct"], d)}
+    with rf.watchdog():
+        for n, a in enumerate(positions):
+            r = lay.to_real(a, rng)
+            if reals is not None:
+                reals.append(r)
+            if r < h.rsent:
+                raise ValueError("offset map is not monotone")
+            h.read_to(r)
+            if expected is not None:
+                code = h.project()
+                d = compare(expected[n], code)
+                if d:
+                    return {"step": n, "a": a, "r": r, "diff": d, "error": h.error, "err": code.get("err"),
+                            "signature": classify(lay, r, code, expected[n]["defunct"], d)}
     return None
 
 
@@ -586,7 +587,8 @@ def record(h, lay, cuts):
     prev_a = 0
     prev_proj = None
     for r in cuts:
-        h.read_to(r)
+        with rf.watchdog():
+            h.read_to(r)
         p = h.project()
         k = p["nsent"] - prev_a
         if k == 0 and prev_proj is not None and all(p[x] == prev_proj[x] for x in COMPARED):
